@@ -330,6 +330,11 @@ impl Document {
             // TODO: Allow spaces between `a` and `b`
 
             if let (TokenKind::Number(..), TokenKind::Word(..)) = (&a.kind, &b.kind) {
+                // The word must be the suffix and nothing else: `1stuff` is not `1st`.
+                if b.span.len() != 2 {
+                    continue;
+                }
+
                 if let Some(found_suffix) = NumberSuffix::from_chars(self.get_span_content(&b.span))
                 {
                     self.tokens[idx].kind.as_mut_number().unwrap().suffix = Some(found_suffix);
